@@ -56,6 +56,8 @@ class JobResult(dict):
         if len(self['samples']) < 12: self['samples'].extend(o['samples'][:12 - len(self['samples'])])
         for k, v in o['witnesses'].items(): self['witnesses'][k] = self['witnesses'].get(k, 0) + v
         for k, v in o['outcomes'].items(): self['outcomes'][k] = self['outcomes'].get(k, 0) + v
+        for k, v in (o.get('cvc5') or {}).items():
+            self.setdefault('cvc5', {}); self['cvc5'][k] = self['cvc5'].get(k, 0) + v
         self['functions'] |= set(o['functions'])
     def witness(self, name, n=1): self['witnesses'][name] = self['witnesses'].get(name, 0) + n
     def outcome(self, k): self['outcomes'][k] = self['outcomes'].get(k, 0) + 1
@@ -68,12 +70,31 @@ class JobResult(dict):
         else:
             r, m = I.model_for(negated)
         if r == z3.unsat:
-            self['discharged'] += 1; return 'unsat'
+            self['discharged'] += 1
+            if not self.get('_cvc5_done') and not mirsym.is_conc(negated): self.cross_check(I, negated, what)
+            return 'unsat'
         if r == z3.sat:
             if on_sat: on_sat(m)
             return 'sat'
         self['inconclusive'].append(f'solver unknown: {what} {timeout_note}')
         return 'unknown'
+
+def _cvc5_cross_check(self, I, negated, what):
+    """the first solver-discharged obligation of every job is re-decided by cvc5 on the SMT-LIB2 export of the same query:
+    `sat` there is a disagreement (inconclusive run), unknown / time-out is only counted"""
+    self['_cvc5_done'] = True
+    if os.environ.get('VERIF_CVC5', '1') == '0': return
+    try:
+        s2 = z3.Solver(); s2.add(I.solver.assertions()); s2.add(negated)
+        text = '(set-logic ALL)\n' + s2.to_smt2()
+        r = subprocess.run(['cvc5', '--lang', 'smt2', '--tlimit=4000'], input=text.encode(), stdout=subprocess.PIPE, stderr=subprocess.PIPE, timeout=8)
+        out = r.stdout.decode(errors='replace').strip().split('\n')[0] if r.stdout else ''
+        if '(error' in r.stdout.decode(errors='replace') or '(error' in r.stderr.decode(errors='replace'): out = 'error'
+    except Exception as e:
+        out = 'timeout' if isinstance(e, subprocess.TimeoutExpired) else 'error'
+    self['cvc5'] = self.get('cvc5', {}); self['cvc5'][out if out in ('unsat', 'sat', 'unknown', 'timeout', 'error') else 'unknown'] = self['cvc5'].get(out if out in ('unsat', 'sat', 'unknown', 'timeout', 'error') else 'unknown', 0) + 1
+    if out == 'sat': self['inconclusive'].append(f'cvc5 disagrees with z3 (z3 unsat, cvc5 sat) on: {what}')
+JobResult.cross_check = _cvc5_cross_check
 
 _CHECK = None
 def _worker_task(args):
@@ -274,6 +295,7 @@ def finish(check, report):
             'bounds': report.bounds, 'outside_bounds': report.outside, 'models_used': report.models_used,
             'inconclusive': inconclusive[:40], 'known_findings_seen': sorted(printed_known),
             'candidates_replayed': len(picked), 'model_mismatches': len(report.mismatches),
+            'cvc5_cross_check': total.get('cvc5', {}),
             'exhaustive': False,
             'explanation': 'states = symbolic paths of the real MIR fully explored; transitions = solver-decided branch decisions + solver queries; every obligation is PC ∧ ¬assertion checked unsat by z3',
         },
